@@ -73,9 +73,9 @@ type GenPool struct {
 	// DirCut > 0: Schema and every variant were rendered with the directive
 	// definitions first; they end at these offsets (Schema, then the variants,
 	// then the faulty variants)
-	DirCuts      []int
-	FaultyCuts   [][]int  // per faulty variant: offsets at which other faulty definitions start (may be empty)
-	Docs         []string
+	DirCuts    []int
+	FaultyCuts [][]int // per faulty variant: offsets at which other faulty definitions start (may be empty)
+	Docs       []string
 }
 
 // GenPoolFor builds a pool from one seed. nFaulty faulty variants of the schema
